@@ -17,15 +17,15 @@ VAdd(a, b)    == VEwSum(a, b)
 \* (nominal scheme: p3 = p).  Result is returned times 12.
 \*   u1 = om + A om ; u2 = 3/4 om + 1/4 (u1 + A u1) ; u3 = 1/3 om + 2/3 (u2 + A u2)
 SSPRK3x12(om, u, p, p3) ==
-    LET u1   == TLCEval(VAdd(om, A(om, u, p)))
-        u2x4 == TLCEval(VAdd(VScale(3, om), VAdd(u1, A(u1, u, p))))
-        s3   == TLCEval(VAdd(u2x4, A(u2x4, u, p3)))
+    LET u1   == DeepV(VAdd(om, A(om, u, p)))
+        u2x4 == DeepV(VAdd(VScale(3, om), VAdd(u1, A(u1, u, p))))
+        s3   == DeepV(VAdd(u2x4, A(u2x4, u, p3)))
     IN  VAdd(VScale(4, om), VScale(2, s3))
 
 \* the nominal third-order polynomial 12 (I + A + A^2/2 + A^3/6) om
 Poly3x12(om, u, p) ==
-    LET a1 == TLCEval(A(om, u, p))
-        a2 == TLCEval(A(a1, u, p))
-        a3 == TLCEval(A(a2, u, p))
+    LET a1 == DeepV(A(om, u, p))
+        a2 == DeepV(A(a1, u, p))
+        a3 == DeepV(A(a2, u, p))
     IN  VAdd(VAdd(VScale(12, om), VScale(12, a1)), VAdd(VScale(6, a2), VScale(2, a3)))
 =============================================================================
